@@ -390,7 +390,11 @@ def run(ctx: Ctx) -> None:
     ctx.rule('R19.3', 'direction from bias ratio: r_bias on the requested axis, sum 1; inf sentinel', floor=16)
     ctx.rule('R19.4', 'generated specifications read back as exactly sizes x rates per bias ratio', floor=12)
     ctx.trust('np.arange(lo, hi + step/2, step) on a decimal grid has round-off far below step/2')
-    _r191(ctx)
-    _r192(ctx)
-    _r193(ctx)
-    _r194(ctx)
+    with ctx.part():
+        _r191(ctx)
+    with ctx.part():
+        _r192(ctx)
+    with ctx.part():
+        _r193(ctx)
+    with ctx.part():
+        _r194(ctx)
